@@ -431,6 +431,8 @@ func (e *Exec) loopHeader(fr *frame, li *loopInfo, b, pred *ssa.BasicBlock, st *
 		}
 		if !fr.inline && fr.spec != nil {
 			e.effectsDeclared(st, fnName(fr.fn), fr.spec)
+			cv := e.oblige(st, name+"/cover:back-edge", e.propsFor(fr, "safety"), BoolLit(true), "some path through the loop body is feasible under the invariants")
+			cv.Cover = true
 		}
 		return // path ends at the back edge
 	}
@@ -447,6 +449,12 @@ func (e *Exec) loopHeader(fr *frame, li *loopInfo, b, pred *ssa.BasicBlock, st *
 		hst.env[phi] = nv
 	}
 	ws := e.writeSet(fr, li)
+	type hv struct {
+		name string
+		t    Term
+	}
+	var loopHavocked []hv
+	loopGen0 := e.ctx.n + 1
 	for a := range ws.locals {
 		if cur, ok := hst.locals[a]; ok {
 			nv := e.freshSV("local."+a.Comment, a.Type().(*types.Pointer).Elem())
@@ -474,6 +482,7 @@ func (e *Exec) loopHeader(fr *frame, li *loopInfo, b, pred *ssa.BasicBlock, st *
 		for hs, srt := range e.ctx.heapSort {
 			if strings.HasPrefix(hs, name) {
 				hst.heap[hs] = e.ctx.fresh("havoc."+hs, srt)
+				loopHavocked = append(loopHavocked, hv{hs, hst.heap[hs]})
 			}
 		}
 		e.markHavoc(hst, name)
@@ -506,6 +515,14 @@ func (e *Exec) loopHeader(fr *frame, li *loopInfo, b, pred *ssa.BasicBlock, st *
 		na := e.ctx.fresh("alloc", SInt)
 		hst.pc = append(hst.pc, Ge(na, hst.alloc))
 		hst.alloc = na
+	}
+	for _, hv := range loopHavocked {
+		e.ctx.closed(hv.name, hv.t, hst.alloc)
+	}
+	for i := range hst.havocPref {
+		if _, ok := e.ctx.genAlloc[hst.havocPref[i].gen]; ok && hst.havocPref[i].gen >= loopGen0 {
+			e.ctx.genAlloc[hst.havocPref[i].gen] = hst.alloc
+		}
 	}
 	vars = e.loopVars(fr, li, hst)
 	for _, inv := range li.spec.Invariants {
@@ -1189,6 +1206,7 @@ func (e *Exec) mapStore(st *State, mt *types.Map, m, k Term, v SV) {
 	e.heapSet(st, dn, Store(dom, m, Store(Select(dom, m), k, BoolLit(true))))
 	for i, l := range flatten(mt.Elem()) {
 		vn := cls + "#val" + l.Path
+		e.ctx.refLeaf[vn] = isRefLeaf(l)
 		va := e.heapGet(st, vn, ArrSort(SInt, ArrSort(ks, l.Sort)))
 		e.heapSet(st, vn, Store(va, m, Store(Select(va, m), k, v.L[i])))
 	}
@@ -1206,6 +1224,7 @@ func (e *Exec) mapVal(st *State, mt *types.Map, m, k Term) SV {
 	dom := e.mapDom(st, mt, m)
 	out := SV{T: mt.Elem()}
 	for _, l := range flatten(mt.Elem()) {
+		e.ctx.refLeaf[cls+"#val"+l.Path] = isRefLeaf(l)
 		va := e.heapGet(st, cls+"#val"+l.Path, ArrSort(SInt, ArrSort(ks, l.Sort)))
 		// absent keys read as the zero value; a nil map (ref 0) has an empty domain
 		out.L = append(out.L, Ite(And(Not(Eq(m, IntLit(0))), Select(dom, k)), Select(Select(va, m), k), ZeroOf(l.Sort)))
